@@ -2,6 +2,53 @@ from . import F, N
 
 TP = "traces_parser.py"
 MUTANTS = [
+    N("C04", "dispatch table replaced by an equivalent if-chain on the qualifier value", TP,
+      """        if event.eventid in self.trace_codes:
+            trace_name = self.trace_codes[event.eventid]
+            if trace_name in trace_handlers:
+                return self.qualifiers_actions[event.func_qualifier](event, self.on_going_traces)
+
+        return self.qualifiers_actions[event.func_qualifier](event, self.on_going_events)
+""",
+      """        in_trace_family = event.eventid in self.trace_codes and self.trace_codes[event.eventid] in trace_handlers
+        state = self.on_going_traces if in_trace_family else self.on_going_events
+        qualifier = event.func_qualifier
+        if qualifier == 1:
+            return self._feed_start_event(event, state)
+        if qualifier == 2:
+            return self._feed_end_event(event, state)
+        return self._feed_single_event(event, state)
+""", more=[(TP, """        self.qualifiers_actions = {
+            DgbFuncQual.DBG_FUNC_START.value: self._feed_start_event,
+            DgbFuncQual.DBG_FUNC_END.value: self._feed_end_event,
+            DgbFuncQual.DBG_FUNC_ALL.value: self._feed_single_event,
+            DgbFuncQual.DBG_FUNC_NONE.value: self._feed_single_event,
+        }
+""", "")]),
+    F("C04", "qualifier tested as a bit field: ALL runs the START and then the END action", TP,
+      """        if event.eventid in self.trace_codes:
+            trace_name = self.trace_codes[event.eventid]
+            if trace_name in trace_handlers:
+                return self.qualifiers_actions[event.func_qualifier](event, self.on_going_traces)
+
+        return self.qualifiers_actions[event.func_qualifier](event, self.on_going_events)
+""",
+      """        in_trace_family = event.eventid in self.trace_codes and self.trace_codes[event.eventid] in trace_handlers
+        state = self.on_going_traces if in_trace_family else self.on_going_events
+        qualifier = event.func_qualifier
+        if not qualifier:
+            return self._feed_single_event(event, state)
+        if qualifier & 1:
+            self._feed_start_event(event, state)
+        if qualifier & 2:
+            return self._feed_end_event(event, state)
+""", "K7", more=[(TP, """        self.qualifiers_actions = {
+            DgbFuncQual.DBG_FUNC_START.value: self._feed_start_event,
+            DgbFuncQual.DBG_FUNC_END.value: self._feed_end_event,
+            DgbFuncQual.DBG_FUNC_ALL.value: self._feed_single_event,
+            DgbFuncQual.DBG_FUNC_NONE.value: self._feed_single_event,
+        }
+""", "")]),
     F("C04", "windows keyed by code only", TP,
       "        for eventid in state.get(event.tid, {}):\n            state[event.tid][eventid].append(event)",
       "        for eventid in state.get(event.eventid, {}):\n            state[event.eventid][eventid].append(event)", "K1"),
